@@ -10,14 +10,18 @@ pub mod fuse;
 pub mod mapdrv;
 pub mod plan;
 pub mod props;
+pub mod tabledrv;
 pub mod validate;
 
 fn main() {
     let args: Vec<String> = std::env::args().skip(1).collect();
     util::install_quiet_panic_hook();
     let mut c = ctx::parse_args(&args);
-    if c.lane == "asan" {
-        // ASan's own red zones and quarantine are what is under test there
+    if c.lane == "miri" {
+        util::SLOW_LANE.store(true, std::sync::atomic::Ordering::SeqCst);
+    }
+    if c.lane == "asan" || c.lane == "miri" {
+        // the sanitizer's own bounds/lifetime tracking is what is under test there
         ckalloc::set_guarded(false);
     }
     let ok = props::dispatch(&mut c);
